@@ -93,6 +93,37 @@ fn main() {
             None => println!("no violation"),
          }
       },
+      Some("debug") => {
+         // print what an execution of a case file observed (development aid)
+         let file = args.get(1).expect("debug <file>");
+         let case: case::Case = serde_json::from_str(&std::fs::read_to_string(file).unwrap()).unwrap();
+         exec::pin_process(case.proc_first_pool);
+         let obs = exec::execute(&case);
+         println!("failure: {:?}; steps {} preemptions {}", obs.failure, obs.sched.steps, obs.sched.preemptions);
+         for s in obs.snaps.iter() {
+            let def = exec::program(&case.actors[s.actor].program);
+            println!("actor {} op {} ret {:?}", s.actor, s.op, s.ret);
+            for (m, rows) in def.rels.iter().zip(s.rels.iter()) {
+               let mut r: Vec<String> = rows.iter().map(|x| format!("{:?}", x)).collect();
+               r.sort();
+               println!("   {} ({}): {}", m.name, r.len(), r.join(" "));
+            }
+         }
+         println!("judge: {:?}", oracle::judge(&case, &obs));
+         if case.check == "C20" {
+            for ai in 0..case.actors.len() {
+               let def = exec::program(&case.actors[ai].program);
+               for s in oracle::solo_snaps(&case, ai) {
+                  println!("SOLO actor {} op {}", ai, s.op);
+                  for (m, rows) in def.rels.iter().zip(s.rels.iter()) {
+                     let mut r: Vec<String> = rows.iter().map(|x| format!("{:?}", x)).collect();
+                     r.sort();
+                     println!("   {} ({}): {}", m.name, r.len(), r.join(" "));
+                  }
+               }
+            }
+         }
+      },
       Some("gen") => {
          // print the case a (check, seed, index) denotes
          let check = args.get(1).cloned().unwrap();
